@@ -17,8 +17,8 @@ from fractions import Fraction
 VERIF = os.path.dirname(os.path.dirname(os.path.abspath(__file__)))
 REPO = os.environ.get('EPSIE_REPO', '/repo')
 LEAN_DIR = os.environ.get('EPSIE_LEAN_DIR', os.path.join(VERIF, 'lean'))
-EVIDENCE_DIR = os.path.join(VERIF, 'evidence')
-REPLAY_DIR = os.path.join(VERIF, 'replays')
+EVIDENCE_DIR = os.environ.get('EPSIE_EVIDENCE_DIR', os.path.join(VERIF, 'evidence'))
+REPLAY_DIR = os.environ.get('EPSIE_REPLAY_DIR', os.path.join(VERIF, 'replays'))
 CORPUS_DIR = os.path.join(VERIF, 'corpus')
 KNOWN_FINDINGS = os.path.join(VERIF, 'known_findings.txt')
 PY = '/venv/bin/python'
@@ -26,6 +26,7 @@ PY = '/venv/bin/python'
 if REPO not in sys.path:
     sys.path.insert(0, REPO)
 
+GENERATORS = ['gen_tables.py', 'gen_sharing.py', 'gen_alias.py']
 ALLOWED_AXIOMS = {'propext', 'Classical.choice', 'Quot.sound'}
 FORBIDDEN_RE = re.compile(
     r'\bsorry\b|\badmit\b|^axiom\s|native_decide|bv_decide|implemented_by|'
@@ -99,6 +100,8 @@ class LeanResult:
         self.axioms = {}              # theorem -> set of axioms
         self.forbidden = []           # grep hits
         self.theorems = []            # audited theorem names
+        self.errors = []
+        self.built = []
         self.wall = 0.0
 
 
@@ -111,28 +114,38 @@ def _lake(args, timeout=3600):
 
 
 def lean_build(targets=None):
-    """Regenerate the tables from /repo, `lake build`, audit. Serialised by a lock."""
+    """Regenerate the tables from /repo, `lake build` the given modules one by one, so
+    that a failure is attributed to the module that carries the broken obligation.
+    Serialised by a lock."""
     res = LeanResult()
+    res.built = []
     t0 = time.time()
     os.makedirs(os.path.join(LEAN_DIR, '.lake'), exist_ok=True)
     lockf = open(os.path.join(LEAN_DIR, '.lake', 'verif.lock'), 'w')
     fcntl.flock(lockf, fcntl.LOCK_EX)
     try:
-        gen = subprocess.run([PY, os.path.join(VERIF, 'harness', 'gen_tables.py')],
-                             stdout=subprocess.PIPE, stderr=subprocess.STDOUT, text=True)
-        res.log += gen.stdout
-        if gen.returncode != 0:
-            res.ok = False
-            res.failed_modules.append('gen_tables')
+        for gen_script in GENERATORS:
+            gp = os.path.join(VERIF, 'harness', gen_script)
+            if not os.path.exists(gp):
+                continue
+            gen = subprocess.run([PY, gp], stdout=subprocess.PIPE, stderr=subprocess.STDOUT, text=True)
+            res.log += gen.stdout
+            if gen.returncode != 0:
+                res.ok = False
+                res.failed_modules.append(gen_script)
+        if not res.ok:
             res.wall = time.time() - t0
             return res
-        p = _lake(['build'] + (targets or []))
-        res.log += p.stdout
-        if p.returncode != 0:
-            res.ok = False
-            for m in re.finditer(r'^(?:✖|error:).*?(Epsie\w+(?:\.\w+)*)', p.stdout, re.M):
-                if m.group(1) not in res.failed_modules:
-                    res.failed_modules.append(m.group(1))
+        for tgt in (targets or [None]):
+            p = _lake(['build'] + ([tgt] if tgt else []))
+            res.log += p.stdout
+            if p.returncode != 0:
+                res.ok = False
+                res.failed_modules.append(tgt or 'all')
+                for m in re.finditer(r'^error: (.*)$', p.stdout, re.M):
+                    res.errors.append(m.group(1)[:400])
+            else:
+                res.built.append(tgt or 'all')
     finally:
         fcntl.flock(lockf, fcntl.LOCK_UN)
         lockf.close()
@@ -162,20 +175,35 @@ def lean_grep():
 _AUDIT_CACHE = {}
 
 
-def lean_axioms(prop_id):
-    """`#print axioms` of every theorem named <prop_id>_* in EpsieProps/<prop_id>.lean.
+def prop_modules(prop_id):
+    """Lean modules that carry the obligations of a property: EpsieProps.<id> and,
+    when present, EpsieProps.<id>Table (obligations about the generated tables)."""
+    mods = []
+    for suffix in ('', 'Table'):
+        if os.path.exists(os.path.join(LEAN_DIR, 'EpsieProps', prop_id + suffix + '.lean')):
+            mods.append('EpsieProps.' + prop_id + suffix)
+    return mods
+
+
+def lean_axioms(prop_id, built_modules=None):
+    """`#print axioms` of every theorem named <prop_id>_* in the property's modules.
     Returns (dict theorem -> sorted axioms, raw output)."""
-    path = os.path.join(LEAN_DIR, 'EpsieProps', prop_id + '.lean')
-    if not os.path.exists(path):
-        return {}, 'no such file ' + path
-    src = open(path).read()
-    src_nc = re.sub(r'/-.*?-/', '', src, flags=re.S)
-    src_nc = re.sub(r'--.*', '', src_nc)
-    names = re.findall(r'^\s*theorem\s+(%s_\w+)' % prop_id, src_nc, re.M)
-    ns = re.search(r'^namespace\s+(\S+)', src_nc, re.M)
-    prefix = (ns.group(1) + '.') if ns else ''
-    body = 'import EpsieProps.%s\n' % prop_id + ''.join(
-        '#print axioms %s%s\n' % (prefix, n) for n in names)
+    names = []
+    mods = [m for m in prop_modules(prop_id) if built_modules is None or m in built_modules]
+    imports = ''
+    for mod in mods:
+        path = os.path.join(LEAN_DIR, *mod.split('.')) + '.lean'
+        src = open(path).read()
+        src_nc = re.sub(r'/-.*?-/', '', src, flags=re.S)
+        src_nc = re.sub(r'--.*', '', src_nc)
+        found = re.findall(r'^\s*theorem\s+(%s_\w+)' % prop_id, src_nc, re.M)
+        ns = re.search(r'^namespace\s+(\S+)', src_nc, re.M)
+        prefix = (ns.group(1) + '.') if ns else ''
+        names += [(prefix, n) for n in found]
+        imports += 'import %s\n' % mod
+    if not names:
+        return {}, 'no theorems found for ' + prop_id
+    body = imports + ''.join('#print axioms %s%s\n' % (pre, n) for pre, n in names)
     tmp = os.path.join(LEAN_DIR, '.lake', 'audit_%s_%d.lean' % (prop_id, os.getpid()))
     with open(tmp, 'w') as fh:
         fh.write(body)
@@ -185,12 +213,11 @@ def lean_axioms(prop_id):
         os.unlink(tmp)
     out = p.stdout
     axioms = {}
-    # "'X' depends on axioms: [a, b]"  or "'X' does not depend on any axioms"
     for m in re.finditer(r"'([^']+)' depends on axioms: \[([^\]]*)\]", out, re.S):
         axioms[m.group(1).split('.')[-1]] = sorted(a.strip() for a in m.group(2).split(',') if a.strip())
     for m in re.finditer(r"'([^']+)' does not depend on any axioms", out):
         axioms[m.group(1).split('.')[-1]] = []
-    for n in names:
+    for _, n in names:
         axioms.setdefault(n, ['<not reported: %s>' % out.strip()[:200]])
     return axioms, out
 
@@ -315,8 +342,8 @@ class Check:
         compiled and depend on allowed axioms only; forbidden constructs: none."""
         self.build = build_result
         ax, raw = ({}, '')
-        if build_result.ok:
-            ax, raw = lean_axioms(self.prop)
+        if build_result.built:
+            ax, raw = lean_axioms(self.prop, build_result.built)
         self.axioms = ax
         forb = lean_grep()
         for name, axs in sorted(ax.items()):
@@ -327,8 +354,8 @@ class Check:
         self.forbidden = forb
         if forb:
             self.obligations.append(('no-forbidden-constructs', False, forb[:5]))
-        if not build_result.ok:
-            self.obligations.append(('lake-build', False, build_result.failed_modules))
+        for mod in build_result.failed_modules:
+            self.obligations.append(('lake build ' + str(mod), False, build_result.errors[:3]))
         return build_result.ok and not forb and all(o[1] for o in self.obligations)
 
     def broken_obligations(self):
